@@ -145,8 +145,24 @@ type fataler interface {
 func checkC02(rt fataler, rec *evid.Rec, h *resgen.History, cnt *c02Counters) {
 	st := h.Stats
 	nontrivial := st.Created >= 2 && st.Nested >= 1 && st.ContainerMv+st.StorageMv >= 1 && st.TreeDestroys >= 1
+	checkHistory(rt, rec, h, cnt, histMode{id: "C02", nontrivial: nontrivial})
+}
+
+// histMode selects what a consumer of resgen histories judges beyond the common part.
+type histMode struct {
+	id         string
+	nontrivial bool
+	payloads   bool // compare complete event payloads (names, order, declared types, values) with the model (C48)
+	// tolerateFR3: while FR3 is known, the interpreter's unboxed optional default arguments are judged as boxed
+	tolerateFR3 bool
+}
+
+// checkHistory runs a generated history on both engines and compares every step
+// with the conservation invariant and with the model.
+func checkHistory(rt fataler, rec *evid.Rec, h *resgen.History, cnt *c02Counters, mode histMode) {
+	nontrivial := mode.nontrivial
 	fail := func(e host.Engine, step int, f string, a ...any) {
-		rt.Fatalf("C02 [%v] step %d: %s\n%s", e, step, fmt.Sprintf(f, a...), h.Prog.String())
+		rt.Fatalf("%s [%v] step %d: %s\n%s", mode.id, e, step, fmt.Sprintf(f, a...), h.Prog.String())
 	}
 	cnt.histories.Add(1)
 	rejected := false
@@ -231,6 +247,15 @@ func checkC02(rt fataler, rec *evid.Rec, h *resgen.History, cnt *c02Counters) {
 				}
 				if !equalS(o.Res.Logs, exp.Logs) {
 					fail(e, i, "logs %v, model expects %v", o.Res.Logs, exp.Logs)
+				}
+				if mode.payloads {
+					msg, tolerated := comparePayloads(o, exp, mode.tolerateFR3 && e == host.Interp)
+					if msg != "" {
+						fail(e, i, "%s", msg)
+					}
+					for ; tolerated > 0; tolerated-- {
+						rec.Excluded("FR3")
+					}
 				}
 			}
 			if d := diffCensus(o.After.Canon, exp.Census); d != "" {
